@@ -66,7 +66,7 @@ func (h HelperContext) BlockWith(hc hctx.Context) (string, error) {
 	if exec := h.compiler.exec; exec != nil {
 		defer exec.blocks.Add(-1)
 		if exec.blocks.Add(1) > maxBlocksRunning {
-			return "", fmt.Errorf("more than %d blocks of one execution running at a time", maxBlocksRunning)
+			return "", &depthError{fmt.Sprintf("more than %d blocks of one execution running at a time", maxBlocksRunning)}
 		}
 	}
 
